@@ -40,9 +40,13 @@ GROUPS = [
 SCALARS = ['float', 'double']
 KINDS = ['own', 'map', 'cmap']
 KIND_DESC = {'own': 'owning', 'map': 'Eigen::Map<G>', 'cmap': 'const Eigen::Map<const G>'}
-# entries per translation unit (quick tier); heavier groups get smaller units so that the 16 cores stay busy
-CHUNK = {'Bundle': 40, 'SGal3': 60, 'SE_2_3': 60}
-CHUNK_DEFAULT = 80
+# The compiler reports an error inside a library template once per specialisation (at its first point of instantiation), so a
+# translation unit with k entries reaching the same broken specialisation needs k shrink rounds. To keep that cheap the complete
+# set of failing entries is first established on one cheap pilot group (small translation units, exploded to single entries on
+# failure); for the other groups those entries are built as single-entry programs from the start. The prediction only saves time:
+# every cell is still compiled, and unexpected failures are shrunk by attribution / bisection as usual.
+PILOT = ('SE2', 'float')
+PILOT_CHUNK = 10
 
 
 # --------------------------------------------------------------------------------------------------
@@ -223,30 +227,38 @@ static void make_inputs(unsigned long long seed, int set)
   g_in.s = S(0.25 + 0.375 * (g.next() + 1.0));
 }
 
-struct Entry { const char* name; void (*fn)(); };
+// operands of one entry: X Y t u are of the operand kind under test, Xo Yo to uo owning copies -------------------
+template <class V> S* load(S* buf, const V& x) { for (int i = 0; i < int(x.size()); ++i) buf[i] = x[i]; return buf; }
+
+struct Operands {
+  G Xo, Yo; T to, uo;
+  G::Jacobian J1, J2, J3, J4;
+  Eigen::Matrix<S, G::Dim, G::DoF> JA1, JA2;
+  Eigen::Matrix<S, G::Dim, G::Dim> JV1, JV2;
+  G::Vector v; T::DataType tv; const S s; const S eps;
+  S bufG[G::RepSize], bufT[T::RepSize], bX_[G::RepSize], bY_[G::RepSize], bt_[T::RepSize], bu_[T::RepSize];
+#if C19_KIND == 0
+  G X, Y; T t, u;
+#elif C19_KIND == 1
+  Eigen::Map<G> X, Y; Eigen::Map<T> t, u;
+#else
+  const Eigen::Map<const G> X, Y; const Eigen::Map<const T> t, u;
+#endif
+  Operands()
+    : Xo(g_in.X), Yo(g_in.Y), to(g_in.t), uo(g_in.u), v(g_in.v), tv(g_in.tv), s(g_in.s), eps(S(1e-4)),
+#if C19_KIND == 0
+      X(Xo), Y(Yo), t(to), u(uo)
+#else
+      X(load(bX_, Xo.coeffs())), Y(load(bY_, Yo.coeffs())), t(load(bt_, to.coeffs())), u(load(bu_, uo.coeffs()))
+#endif
+  {
+    load(bufG, Yo.coeffs()); load(bufT, uo.coeffs());
+    J1.setConstant(S(1)); J2.setConstant(S(2)); J3.setConstant(S(3)); J4.setConstant(S(4));
+    JA1.setConstant(S(1)); JA2.setConstant(S(2)); JV1.setConstant(S(1)); JV2.setConstant(S(2));
+  }
+};
 
 } // namespace c19
-
-// operands of one entry: X Y t u are of the operand kind under test, Xo Yo to uo owning copies -------------
-#define C19_COMMON \
-  const c19::Inputs& in_ = c19::g_in; \
-  G Xo(in_.X), Yo(in_.Y); T to(in_.t), uo(in_.u); \
-  G::Jacobian J1, J2, J3, J4; J1.setConstant(S(1)); J2.setConstant(S(2)); J3.setConstant(S(3)); J4.setConstant(S(4)); \
-  Eigen::Matrix<S, G::Dim, G::DoF> JA1, JA2; JA1.setConstant(S(1)); JA2.setConstant(S(2)); \
-  Eigen::Matrix<S, G::Dim, G::Dim> JV1, JV2; JV1.setConstant(S(1)); JV2.setConstant(S(2)); \
-  G::Vector v(in_.v); T::DataType tv(in_.tv); const S s = in_.s; const S eps = S(1e-4); \
-  S bufG[G::RepSize], bufT[T::RepSize], bX_[G::RepSize], bY_[G::RepSize], bt_[T::RepSize], bu_[T::RepSize]; \
-  for (int i_ = 0; i_ < int(G::RepSize); ++i_) { bufG[i_] = Yo.coeffs()[i_]; bX_[i_] = Xo.coeffs()[i_]; bY_[i_] = Yo.coeffs()[i_]; } \
-  for (int i_ = 0; i_ < int(T::RepSize); ++i_) { bufT[i_] = uo.coeffs()[i_]; bt_[i_] = to.coeffs()[i_]; bu_[i_] = uo.coeffs()[i_]; }
-
-#if C19_KIND == 0
-#define C19_OPERANDS C19_COMMON G X(Xo); G Y(Yo); T t(to); T u(uo);
-#elif C19_KIND == 1
-#define C19_OPERANDS C19_COMMON Eigen::Map<G> X(bX_); Eigen::Map<G> Y(bY_); Eigen::Map<T> t(bt_); Eigen::Map<T> u(bu_);
-#else
-#define C19_OPERANDS C19_COMMON const Eigen::Map<const G> X(bX_); const Eigen::Map<const G> Y(bY_); \
-  const Eigen::Map<const T> t(bt_); const Eigen::Map<const T> u(bu_);
-#endif
 '''
 
 MAIN = r'''
@@ -264,7 +276,8 @@ int main(int argc, char** argv)
       c19::g_set = set;
       c19::g_entry = k_entries[i].name;
       try {
-        k_entries[i].fn();
+        Cells c;
+        (c.*k_entries[i].fn)();
         ++executed;
       } catch (const std::exception& e) {
         ++exceptions;
@@ -295,18 +308,19 @@ def gen_source(group, scalar, kind, items, seed=1, header=''):
         lines.append('// ' + h)
     lines.extend(pre.split('\n'))
     spans = []
+    lines.append('// every entry is a member function of Cells: the operands above are visible under their plain names')
+    lines.append('struct Cells : c19::Operands {')
     for i, (name, code, e) in enumerate(items):
         lines.append('// ---- %s  [%s%s; documented in %s]' % (name, e['cat'], ', mutating' if e['mut'] else '', e['doc']))
         first = len(lines) + 1
-        lines.append('static void e_%d()' % i)
-        lines.append('{')
-        lines.append('  C19_OPERANDS')
-        lines.append('  { ' + code + ' }')
-        lines.append('}')
+        lines.append('void e_%d()' % i)
+        lines.append('{ ' + code + ' }')
         spans.append((first, len(lines)))
-    lines.append('static const c19::Entry k_entries[] = {')
+    lines.append('};')
+    lines.append('struct Entry { const char* name; void (Cells::*fn)(); };')
+    lines.append('static const Entry k_entries[] = {')
     for i, (name, code, e) in enumerate(items):
-        lines.append('  {"%s", &e_%d},' % (name, i))
+        lines.append('  {"%s", &Cells::e_%d},' % (name, i))
     lines.append('};')
     lines.extend(MAIN.replace('@NSETS@', str(N_SETS)).split('\n'))
     return '\n'.join(lines) + '\n', spans
@@ -412,29 +426,44 @@ class Builder:
 
 
 def first_error_line(out, src=None):
-    for l in out.splitlines():
-        if re.search(r'\berror\b', l):
-            l = l.strip()
-            if src:
-                l = l.replace(src, '<program>')
-            return l[:600]
-    for l in out.splitlines():
-        if l.strip():
-            return l.strip()[:600]
-    return '(no compiler output)'
+    lines = out.splitlines()
+    pick = None
+    for l in lines:
+        if 'undefined reference' in l or 'multiple definition' in l:
+            pick = l
+            break
+    if pick is None:
+        for l in lines:
+            if re.search(r'\berror\b', l) and 'ld returned' not in l:
+                pick = l
+                break
+    if pick is None:
+        for l in lines:
+            if l.strip():
+                pick = l
+                break
+    if pick is None:
+        return '(no compiler output)'
+    pick = pick.strip()
+    if src:
+        pick = pick.replace(src, '<program>')
+    return pick[:600]
 
 
 def attribute(out, src, spans):
-    """indices of the entries whose source lines are mentioned by the compiler diagnostics"""
+    """indices of the entries named by the compiler / linker diagnostics (source lines of the program, or the entry function)"""
     hit = set()
-    pat = re.compile(re.escape(src) + r':(\d+)[:,]')
-    base = re.compile(r'(?:^|[\s/])' + re.escape(os.path.basename(src)) + r':(\d+)[:,]')
+    pat = re.compile(r'(?:' + re.escape(src) + r'|(?:^|[\s/])' + re.escape(os.path.basename(src)) + r'):(\d+)[:,]')
+    fn = re.compile(r'Cells::e_(\d+)\(\)')
     for l in out.splitlines():
-        for m in list(pat.finditer(l)) + list(base.finditer(l)):
+        for m in pat.finditer(l):
             ln = int(m.group(1))
             for i, (a, b) in enumerate(spans):
                 if a <= ln <= b:
                     hit.add(i)
+        for m in fn.finditer(l):
+            if int(m.group(1)) < len(spans):
+                hit.add(int(m.group(1)))
     return hit
 
 
@@ -460,14 +489,26 @@ class Cell:
         return '%s / %s / %s / %s: %s' % (self.group[0], self.scalar, KIND_DESC[self.kind], self.name, self.code)
 
 
-def build_cells(builder, cell_lists, pool, say=None):
-    """cell_lists: list of lists of Cells that share (group, scalar, kind). Builds every list as one program; lists that do
-    not build are shrunk to single-cell programs. Sets status/exe/idx/why on every cell. -> number of programs built"""
+def build_cells(builder, cell_lists, pool, say=None, learned=None, explode=False):
+    """cell_lists: lists of Cells sharing (group, scalar, kind); every list is built as one program. A list that does not build is
+    shrunk down to single-cell programs: the cells named by the diagnostics (plus those whose entry is already known not to
+    build for that operand kind, `learned`) are split off as single-cell programs, the rest is rebuilt; without usable
+    attribution the list is bisected. explode=True: a failing list goes straight to single-cell programs (pilot).
+    Sets status/exe/idx/why on every cell; updates learned {kind: set(entry names)}. -> number of programs built"""
+    learned = learned if learned is not None else {}
     n_programs = 0
-    pending = list(cell_lists)
+    pending = []
+    for cells in cell_lists:
+        bad = [c for c in cells if c.name in learned.get(c.kind, ())] if len(cells) > 1 else []
+        if bad and len(bad) < len(cells):
+            pending.append([c for c in cells if c.name not in learned.get(c.kind, ())])
+            pending.extend([[c] for c in bad])
+        else:
+            pending.append(cells)
     rnd = 0
     while pending:
         rnd += 1
+        pending.sort(key=lambda l: -len(l) * (3 if l[0].group[1] == 'Bundle' else 1))
         jobs = []
         for cells in pending:
             c0 = cells[0]
@@ -475,22 +516,28 @@ def build_cells(builder, cell_lists, pool, say=None):
             jobs.append((cells, text, spans))
         results = list(pool.map(lambda j: builder.build(j[1], j[0][0].ident()), jobs))
         n_programs += len(jobs)
-        nxt = []
+        failed_multi = []
         for (cells, text, spans), r in zip(jobs, results):
             if r['ok']:
                 for i, c in enumerate(cells):
                     c.status, c.exe, c.idx = 'built', r['exe'], i
-                continue
-            if len(cells) == 1:
+            elif len(cells) == 1:
                 c = cells[0]
                 c.status = 'compile-fail'
                 c.why = first_error_line(r['out'], r['src'])
                 c.detail = r['out']
+                learned.setdefault(c.kind, set()).add(c.name)
+            else:
+                failed_multi.append((cells, spans, r))
+        nxt = []
+        for cells, spans, r in failed_multi:
+            if explode:
+                nxt.extend([[c] for c in cells])
                 continue
             bad = attribute(r['out'], r['src'], spans)
+            bad |= set(i for i, c in enumerate(cells) if c.name in learned.get(c.kind, ()))
             if bad and len(bad) < len(cells):
-                rest = [c for i, c in enumerate(cells) if i not in bad]
-                nxt.append(rest)
+                nxt.append([c for i, c in enumerate(cells) if i not in bad])
                 nxt.extend([[cells[i]] for i in sorted(bad)])
             else:   # no usable attribution: bisect
                 h = len(cells) // 2
@@ -573,12 +620,7 @@ def prune(ctx, keep):
         pass
 
 
-def chunks_of(cells, fam, per_cell):
-    if per_cell:
-        return [[c] for c in cells]
-    n = CHUNK.get(fam, CHUNK_DEFAULT)
-    k = max(1, -(-len(cells) // n))
-    size = -(-len(cells) // k)
+def chunks_of(cells, size):
     return [cells[i:i + size] for i in range(0, len(cells), size)]
 
 
@@ -620,21 +662,27 @@ def run(ctx, prop, stage, tier, res):
             keep.add(os.path.basename(b.dir))
             os.utime(b.dir, None)
             b.prepare_pch()
-            all_cells, lists = [], []
+            all_cells, lists, pilot_lists = [], [], []
             for g in groups:
                 for sc in SCALARS:
                     for kd in KINDS:
                         cs = [Cell(g, sc, kd, n, code, e) for n, code, e in expand_entries(entries, g, kd)]
                         all_cells.extend(cs)
-                        lists.extend(chunks_of(cs, g[1], False))
+                        if (g[0], sc) == PILOT:
+                            pilot_lists.extend(chunks_of(cs, PILOT_CHUNK))
+                        else:
+                            lists.append(cs)   # one translation unit per (group, scalar, kind)
                         if g[0] in single_groups:
                             # thorough: additionally every cell as its own translation unit
                             cs1 = [Cell(g, sc, kd, n, code, e) for n, code, e in expand_entries(entries, g, kd)]
                             all_cells.extend(cs1)
-                            lists.extend(chunks_of(cs1, g[1], True))
-            lists.sort(key=lambda l: -len(l))
+                            lists.extend(chunks_of(cs1, 1))
             tb = time.time()
-            n_programs += build_cells(b, lists, pool, say)
+            learned = {}
+            n_programs += build_cells(b, pilot_lists, pool, say, learned, explode=True)
+            if say and any(learned.values()):
+                say('  c19: pilot %s/%s: entries that do not build: %s' % (PILOT[0], PILOT[1], {k: sorted(v) for k, v in learned.items()}))
+            n_programs += build_cells(b, lists, pool, say, learned)
             res['build_s'] = res.get('build_s', 0) + time.time() - tb
             run_cells(all_cells, ctx.seed, pool)
             seen_replay = set()
